@@ -64,6 +64,18 @@ def shared_state_obligations(ctx, rep, rule, eff, funcs, sequential=False):
     initialisation block is invisible to later requests, so only per-request writes count."""
 
     def in_lazy_init(f, node, globs):
+        # `if G: return` earlier in the same block
+        pm_ = parents(f.node)
+        cur_ = node
+        while cur_ is not None and not isinstance(pm_.get(cur_), (ast.FunctionDef, ast.AsyncFunctionDef)):
+            cur_ = pm_.get(cur_)
+        if cur_ is not None:
+            body_ = f.node.body
+            for st_ in body_[: body_.index(cur_)] if cur_ in body_ else []:
+                if isinstance(st_, ast.If) and len(st_.body) == 1 and isinstance(st_.body[0], ast.Return) and not st_.orelse:
+                    t_ = norm(st_.test)
+                    if any(t_ in (g, f"{g} is not None", f"{g} != None") for g in globs | set(f.module.globals)):
+                        return True
         for anc, field in enclosing(f.node, node):
             if isinstance(anc, ast.If) and field == "body":
                 t = norm(anc.test)
@@ -84,17 +96,36 @@ def shared_state_obligations(ctx, rep, rule, eff, funcs, sequential=False):
             if isinstance(n, ast.Assign) and any(isinstance(t, ast.Name) and t.id in globs for t in n.targets):
                 names = [t.id for t in n.targets if isinstance(t, ast.Name) and t.id in globs]
                 problems = []
-                # guarded: inside `if not G` / `if G is None`
+                # guarded: every path that reaches the assignment has found one of the function's globals still unset
+                # (`if not G:` around it, `if G: return` before it, `G is None`, ...)
                 guarded = False
                 siblings = []
-                for anc, field in enclosing(f.node, n):
-                    if isinstance(anc, ast.If) and field == "body":
-                        t = norm(anc.test)
-                        gs = [g for g in globs if t in (f"not {g}", f"{g} is None", f"{g} == None")]
-                        if gs:
-                            guarded = True
-                            siblings = gs
-                        break
+                from ..facts import collect_site_paths
+
+                def unset(fs):
+                    out = []
+                    for fa in fs:
+                        t = norm(fa.node)
+                        for g in globs:
+                            if (t == g and not fa.truth) or (t in (f"{g} is None", f"{g} == None") and fa.truth) \
+                                    or (t in (f"{g} is not None", f"{g} != None") and not fa.truth):
+                                out.append(g)
+                    return out
+                sp = collect_site_paths(prog, ctx.resolver, f, f.cls, {id(n.value)}).get(id(n.value))
+                if sp:
+                    per_path = [unset(fs) for fs, _, _ in sp]
+                    if all(per_path):
+                        guarded = True
+                        siblings = sorted(set.intersection(*[set(x) for x in per_path])) or sorted(set(per_path[0]))
+                if not guarded:
+                    for anc, field in enclosing(f.node, n):
+                        if isinstance(anc, ast.If) and field == "body":
+                            t = norm(anc.test)
+                            gs = [g for g in globs if t in (f"not {g}", f"{g} is None", f"{g} == None")]
+                            if gs:
+                                guarded = True
+                                siblings = gs
+                            break
                 if not guarded:
                     problems.append("assigned without an 'is it still unset?' guard: a second request (thread) overwrites a table another one is using")
                 elif not any(g in siblings for g in names) and names:
